@@ -34,7 +34,7 @@ def sqlite_profile():
     """{method: {attribute: what is checked}}"""
     out = {}
     for rel, fn in SQLITE_METHODS:
-        body = S.fn_body(S.source(rel), fn)
+        body = S.fn_body_deep(S.source(rel), fn)
         lets = S.let_bindings(rel, fn)
         a = {}
         for m in re.finditer(r'validate_string_length\(\s*&?\s*(\w+)\.(\w+)\s*,\s*(\w+)', body):
@@ -67,7 +67,7 @@ def memory_profile():
     out = {}
     base = os.path.join(REPO, 'crates', 'mdk-memory-storage', 'src')
     for rel, fn in MEMORY_METHODS:
-        body = S.fn_body(open(os.path.join(base, rel)).read(), fn)
+        body = S.fn_body_deep(open(os.path.join(base, rel)).read(), fn)
         a = {}
         for m in re.finditer(r'(?:(\w+)\s*\.\s*)?(\w+)\s*\.len\(\)\s*>=?\s*self\s*\.\s*limits\s*\.\s*(\w+)', body):
             attr = m.group(2)
